@@ -12,7 +12,7 @@ pub fn def() -> CheckDef {
         id: "C03",
         title: "Hierarchical completion and exactly one terminal event per process",
         case,
-        rule: "case = generated model with sequential and parallel structure (multi-branch steps with several open interrupts, block/parallel/sequence acts; a third with catches on steps and acts; a sixth with a backward `next` jump out of a branch that visits a stretch of steps 2..4 times) x scripted client using abort/skip/error/back/cancel/submit/remove in one branch while siblings are open (with duplicates) + late adversary actions x seeded schedule; oracles at every quiescent point over the live dump (H1), the stored rows and the event stream. non-trivial = a non-complete action was accepted while another interrupt of the process was open, or the process ended by abort/skip/error; distinct = distinct (scenario hash, schedule hash)",
+        rule: "case = generated model with sequential and parallel structure (multi-branch steps with several open interrupts, block/parallel/sequence acts; a third with catches on steps and acts; a sixth with a backward `next` jump out of a branch that visits a stretch of steps 2..4 times) x scripted client using abort/skip/error/back/cancel/submit/remove in one branch while siblings are open (with duplicates; an eighth of the cases end every interrupt the same way - error / abort / skip -, so that the second ending arrives after the first has closed what encloses both) + late adversary actions x seeded schedule; oracles at every quiescent point over the live dump (H1), the stored rows and the event stream. non-trivial = a non-complete action was accepted while another interrupt of the process was open, or the process ended by abort/skip/error; distinct = distinct (scenario hash, schedule hash)",
         level: "exploration",
         assumptions: &["monotone simulated clock", "live dump through hook H1 reads the cache only", "no storage errors are injected"],
         probes: &["probe.action_with_open_sibling", "probe.ended_not_completed", "probe.late_action_after_end"],
